@@ -144,3 +144,113 @@ func helperSum(info *types.Info, call *ast.CallExpr, term func(ast.Expr) (string
 	}
 	return pAtom("sum(" + coll + "){" + atom + "}"), true, nil
 }
+
+// capHelper: f is a function of the runtime package func(s []T, n int) []T that hands back its first argument with the
+// same length and elements and at most more capacity — every statement is an `if` over side-effect-free conditions or a
+// `return`, and every returned value is s itself, s[:len(s)], or append(s, …)[:len(s)] (what slices.Grow does). The
+// amount it may allocate is its second argument plus what append's amortised growth adds.
+func capHelper(f *types.Func) bool {
+	if helperCtx == nil || f == nil || f.Pkg() == nil || f.Pkg().Path() != core.RepoModule+"/runtime" {
+		return false
+	}
+	p := helperCtx.Pkg("runtime")
+	if p == nil {
+		return false
+	}
+	for _, file := range p.Syntax {
+		for _, d := range file.Decls {
+			fd, ok := d.(*ast.FuncDecl)
+			if !ok || fd.Body == nil || fd.Recv != nil || fd.Name.Name != f.Name() {
+				continue
+			}
+			info := p.TypesInfo
+			var params []types.Object
+			for _, fl := range fd.Type.Params.List {
+				for _, n := range fl.Names {
+					params = append(params, info.Defs[n])
+				}
+			}
+			if len(params) != 2 || fd.Type.Results == nil || len(fd.Type.Results.List) != 1 || len(fd.Type.Results.List[0].Names) != 0 {
+				return false
+			}
+			s := params[0]
+			if _, isSlice := s.Type().Underlying().(*types.Slice); !isSlice || basicKind(params[1].Type()) != types.Int {
+				return false
+			}
+			isS := func(x ast.Expr) bool {
+				id, ok := ast.Unparen(x).(*ast.Ident)
+				return ok && info.Uses[id] == s
+			}
+			lenS := func(x ast.Expr) bool {
+				c, ok := ast.Unparen(x).(*ast.CallExpr)
+				if !ok || len(c.Args) != 1 || !isS(c.Args[0]) {
+					return false
+				}
+				b, ok := core.CalleeObj(info, c).(*types.Builtin)
+				return ok && b.Name() == "len"
+			}
+			pure := func(x ast.Expr) bool {
+				ok := true
+				ast.Inspect(x, func(n ast.Node) bool {
+					if c, isC := n.(*ast.CallExpr); isC {
+						if b, isB := core.CalleeObj(info, c).(*types.Builtin); !isB || (b.Name() != "len" && b.Name() != "cap") {
+							ok = false
+						}
+					}
+					return true
+				})
+				return ok
+			}
+			same := func(x ast.Expr) bool {
+				x = ast.Unparen(x)
+				if isS(x) {
+					return true
+				}
+				se, ok := x.(*ast.SliceExpr)
+				if !ok || se.Slice3 || se.Low != nil || !lenS(se.High) {
+					return false
+				}
+				if isS(se.X) {
+					return true
+				}
+				c, ok := ast.Unparen(se.X).(*ast.CallExpr)
+				if !ok || len(c.Args) < 1 || !isS(c.Args[0]) {
+					return false
+				}
+				b, ok := core.CalleeObj(info, c).(*types.Builtin)
+				return ok && b.Name() == "append"
+			}
+			var okStmts func(list []ast.Stmt) bool
+			okStmts = func(list []ast.Stmt) bool {
+				for _, st := range list {
+					switch t := st.(type) {
+					case *ast.ReturnStmt:
+						if len(t.Results) != 1 || !same(t.Results[0]) {
+							return false
+						}
+					case *ast.IfStmt:
+						if t.Init != nil || !pure(t.Cond) || !okStmts(t.Body.List) {
+							return false
+						}
+						switch e := t.Else.(type) {
+						case nil:
+						case *ast.BlockStmt:
+							if !okStmts(e.List) {
+								return false
+							}
+						case *ast.IfStmt:
+							if !okStmts([]ast.Stmt{e}) {
+								return false
+							}
+						}
+					default:
+						return false
+					}
+				}
+				return true
+			}
+			return okStmts(fd.Body.List)
+		}
+	}
+	return false
+}
